@@ -202,6 +202,25 @@ def handle5 (op : String) (a obs : List String) : Option Verdict :=
         !(0 < ms && ms ≤ 2000) || (field obs "closed_after_ms" == "ok" && field obs "error" == "timed_out")),
       ("long_timeout_keeps_connection", !(2000 < ms && ms < 2^62) || field obs "error" == "alive")]
     pure (model, prop)
+  | "reload" =>
+    let rebind := get a 0 == "true"
+    -- `reload_config` swaps the quinn server configuration: connections accepted from then on
+    -- use the new identity; an established connection holds its own crypto state. With
+    -- `rebind = true` the endpoint moves to a new local address: packets to an established client
+    -- then come from an address it did not connect to, which QUIC clients ignore (no server
+    -- migration, RFC 9000 §9) — what happens to the old session then is quinn's, not modelled.
+    let od := field obs "old_dgram"
+    let os := field obs "old_stream"
+    let model := ["reload=ok", "new_b=established", "new_a=conn:quic_proto",
+      if rebind then s!"old_dgram={od}" else "old_dgram=true",
+      if rebind then s!"old_stream={os}" else "old_stream=true", "old_state=alive"]
+    let prop := check [("no_trap", !isTrap obs),
+      ("reload_succeeds", field obs "reload" == "ok"),
+      ("new_connections_use_the_new_configuration",
+        field obs "new_b" == "established" && field obs "new_a" != "established"),
+      ("established_connection_not_disturbed",
+        field obs "old_state" == "alive" && (rebind || (od == "true" && os == "true")))]
+    some (model, prop)
   | "keepalive" => do
     let ka ← parseNat (get a 1)
     -- idle timeout 600 ms on both sides, observed after 2 s: the interval reaches quinn unchanged
